@@ -254,6 +254,53 @@ def eval_metric(fam, tname, d, scale):
     return cell, viols
 
 
+TINY = (0.0, 2.5e-11, -2.5e-11, 1e-13, 3e-6, 1.0, -3.0)
+
+
+def eval_tiny(fam, a, b):
+    """Vector(P1, P2) / subtraction / addition with float coordinates whose differences are far below the
+    tolerance: arithmetic is exact component algebra, the tolerance must play no role."""
+    viols = []
+    for op, th, exp in (('from-points', lambda: comps(Vector(Point(*a), Point(*b))), [y - x for x, y in zip(a, b)]),
+                        ('sub', lambda: comps(Vector(*b) - Vector(*a)), [y - x for x, y in zip(a, b)]),
+                        ('add', lambda: comps(Vector(*a) + Vector(*b)), [x + y for x, y in zip(a, b)]),
+                        ('pv', lambda: comps(Point(*b).pv()), list(b))):
+        r = lib.call(th)
+        if isinstance(r, lib.Raised):
+            viols.append(Viol('C18|tiny|%s|raises:%s' % (op, r.cls), core.enc(('tiny', a, b)), tdesc(exp), repr(r), op))
+        elif not same_exact(r, exp):
+            viols.append(Viol('C18|tiny|%s|wrong-value-or-type' % op, core.enc(('tiny', a, b)), tdesc(exp), tdesc(r),
+                              '%s with differences below the tolerance' % op))
+    return 'tiny', viols
+
+
+def eval_reassign(fam, tname, d, d2):
+    """length / normalized / angle, then v[i] = c in place, then the same queries again."""
+    conv = {'int': int, 'float': float, 'Fraction': F}[tname]
+    v = Vector(*[conv(c) for c in d])
+    lib.call(v.length)
+    lib.call(v.normalized)
+    lib.call(v.angle, Vector(1, 0, 0))
+    for i in range(3):
+        v[i] = conv(d2[i])
+    L = math.sqrt(float(sum(F(c) * F(c) for c in d2)))
+    viols = []
+    sc = core.enc(('reassign', tname, d, d2))
+    l = lib.call(v.length)
+    if isinstance(l, lib.Raised) or not lib.close_rel(l, L, 1e-12, 0):
+        viols.append(Viol('C18|reassign|%s|length|stale-after-in-place-assignment' % tname, sc, L, lib.describe(l), 'length after v[i] = c'))
+    u = lib.call(v.normalized)
+    if isinstance(u, lib.Raised) or any(abs(float(x) - float(c) / L) > 1e-12 for x, c in zip(comps(u), d2)):
+        viols.append(Viol('C18|reassign|%s|normalized|stale-after-in-place-assignment' % tname, sc, [float(c) / L for c in d2], lib.describe(u), 'normalized after v[i] = c'))
+    w = [d2[1], d2[2], d2[0]]
+    dotp = float(sum(F(x) * F(y) for x, y in zip(d2, w)))
+    exp = math.acos(max(-1.0, min(1.0, dotp / (L * L))))
+    a = lib.call(v.angle, Vector(*[conv(c) for c in w]))
+    if isinstance(a, lib.Raised) or abs(a - exp) > 1e-7:
+        viols.append(Viol('C18|reassign|%s|angle|stale-after-in-place-assignment' % tname, sc, exp, lib.describe(a), 'angle after v[i] = c'))
+    return 'reassign|' + tname, viols
+
+
 def eval_consts(fam):
     viols = []
     for name, th, exp in (('zero', Vector.zero, [0, 0, 0]), ('x_unit_vector', x_unit_vector, [1, 0, 0]),
@@ -289,6 +336,10 @@ def eval_scene(fam, s):
         return eval_metric(fam, s[1], s[2], s[3])
     if k == 'const':
         return eval_consts(fam)
+    if k == 'tiny':
+        return eval_tiny(fam, s[1], s[2])
+    if k == 'reassign':
+        return eval_reassign(fam, s[1], s[2], s[3])
     raise core.HarnessError('bad scene')
 
 
@@ -354,6 +405,10 @@ def families(tier):
                     continue
                 sc.append(('metric', t, d, sca if t != 'float' else float(sca)))
     fams.append(ListFamily('metric', sc, chunk=100))
+    tv = [(x, y, z) for x in TINY for y in TINY[:4] for z in (0.0, -3.0)]
+    fams.append(ListFamily('tiny-differences', [('tiny', a, b) for a in tv[::3] for b in tv], chunk=400))
+    ds = A.D1 if tier == 'quick' else A.D2
+    fams.append(ListFamily('reassign', [('reassign', t, d, d2) for t in ('int', 'float', 'Fraction') for d in ds[::2] for d2 in ds], chunk=200))
     return fams
 
 
